@@ -13,6 +13,7 @@ import (
 	"fmt"
 	"math"
 	"os"
+	"slices"
 	"sort"
 	"strconv"
 	"strings"
@@ -293,7 +294,7 @@ type vfTok struct {
 }
 
 type vfOp struct {
-	kind    byte // 'F' forward, 'C' copy prefix, 'R' remove, 'Q' can resume, 'E' SetCausal(Except) on the current pass
+	kind    byte // 'F' forward, 'C' copy prefix, 'R' remove, 'Q' can resume, 'E' SetCausal(Except) on the current pass, 'V' reserve pass (StartForward(reserve=true))
 	ex      []int
 	toks    []vfTok
 	a, b, c int // C: src dst len | R: seq begin end | Q: seq pos
@@ -327,9 +328,9 @@ func (cf vfConfig) String() string {
 
 func (o vfOp) String() string {
 	switch o.kind {
-	case 'F':
+	case 'F', 'V':
 		var sb strings.Builder
-		fmt.Fprintf(&sb, "F %d", len(o.toks))
+		fmt.Fprintf(&sb, "%c %d", o.kind, len(o.toks))
 		for _, t := range o.toks {
 			fmt.Fprintf(&sb, " %d %d %d", t.seq, t.pos, t.id)
 		}
@@ -405,9 +406,9 @@ func vfParseHistory(line string) (vfConfig, []vfOp, error) {
 			k := f[p]
 			p++
 			switch k {
-			case "F":
+			case "F", "V":
 				m := next()
-				op := vfOp{kind: 'F'}
+				op := vfOp{kind: k[0]}
 				for j := 0; j < m; j++ {
 					op.toks = append(op.toks, vfTok{seq: next(), pos: int32(next()), id: next()})
 				}
@@ -497,9 +498,9 @@ func (s *vfShadow) compact() {
 }
 
 // slide marks what the window of the coming batch no longer needs (what the cache may evict).
-func (s *vfShadow) slide(toks []vfTok) {
+func (s *vfShadow) slide(toks []vfTok) (marked int) {
 	if s.window == math.MaxInt32 {
-		return
+		return 0
 	}
 	low := map[int]int32{}
 	for _, t := range toks {
@@ -510,10 +511,14 @@ func (s *vfShadow) slide(toks []vfTok) {
 	for _, e := range s.entries {
 		for _, q := range e.seqs {
 			if p, ok := low[q]; ok && int64(e.pos) < int64(p)-int64(s.window) {
+				if !e.evicted[q] {
+					marked++
+				}
 				e.evicted[q] = true
 			}
 		}
 	}
+	return marked
 }
 
 func (s *vfShadow) store(toks []vfTok) {
@@ -621,13 +626,14 @@ func vfKeysString(ks []vfKey) string {
 // ------------------------------------------------------------------ executor
 
 type vfRun struct {
-	tag     string        // "kv-x" standalone, "kw-x" behind a WrapperCache
-	api     Cache         // what Put/Get/SetLayer are called on (the cache itself or the wrapper)
-	sel     func()        // selects this cache behind a wrapper (SetLayerType)
+	tag     string // "kv-x" standalone, "kw-x" behind a WrapperCache
+	api     Cache  // what Put/Get/SetLayer are called on (the cache itself or the wrapper)
+	sel     func() // selects this cache behind a wrapper (SetLayerType)
 	taint   *vfTaint
 	layers  []int   // the layer numbers used with this cache; layers[0] is the one L1 prints
 	curToks []vfTok // the batch of the last StartForward this cache executed (accepted or not)
 	passOp  int     // op index of the accepted forward whose pass is still current (nothing else since), else -1
+	reserve bool    // the pass being observed is a reserve pass (nothing stored, nothing evicted)
 	window  int32
 	cf      vfConfig
 	cache   *Causal
@@ -925,11 +931,30 @@ func (r *vfRun) forward(opi int, op vfOp) (string, bool) {
 	ctx := r.backend.NewContext()
 	defer ctx.Close()
 	r.fwdPre(op, true)
+	moves0 := r.taint.moves
 	err := r.cache.StartForward(ctx, vfBatch(op), false)
+	r.fwdBranch(err, r.taint.moves > moves0)
 	if err != nil {
 		return r.fwdFail(opi, len(op.toks), err, true), false
 	}
 	return r.fwdOK(opi, op, ctx), true
+}
+
+// fwdBranch counts which path of StartForward the real code took (moved = defrag issued block copies)
+func (r *vfRun) fwdBranch(err error, moved bool) {
+	if r.out == nil {
+		return
+	}
+	switch {
+	case err == nil && moved:
+		r.out.Count("fwd_ok_after_defrag_moves")
+	case err == nil:
+		r.out.Count("fwd_ok_without_moves")
+	case moved:
+		r.out.Count("fwd_rejected_after_defrag_moves")
+	default:
+		r.out.Count("fwd_rejected_without_moves")
+	}
 }
 
 // fwdPre: shadow-side bookkeeping before a StartForward (ran = this cache's StartForward is executed)
@@ -968,7 +993,10 @@ func (r *vfRun) fwdPre(op vfOp, ran bool) {
 		}
 	}
 	if !sh.unsound && ran {
-		sh.slide(op.toks)
+		if k := sh.slide(op.toks); k > 0 && r.out != nil {
+			r.out.Add("window_evicted_entries", k)
+			r.out.Count("fwd_with_window_eviction")
+		}
 		// a forward on an unapproved CopyPrefix target is misuse
 		for _, t := range op.toks {
 			f := sh.fl(t.seq)
@@ -1147,7 +1175,7 @@ func (r *vfRun) observe(opi int, toks []vfTok, ctx ml.Context, except map[int]bo
 				r.l2("exposed-mismatch", detail)
 			}
 		}
-		if len(wantEvicted) > 0 {
+		if len(wantEvicted) > 0 && !r.reserve {
 			f := sh.fl(t.seq)
 			detail := fmt.Sprintf("op %d token %d (seq %d pos %d, window %d): stored entries (id.shift) %s are inside the window but were evicted earlier",
 				opi, i, t.seq, t.pos, sh.window, vfKeysString(wantEvicted))
@@ -1166,6 +1194,62 @@ func (r *vfRun) observe(opi int, toks []vfTok, ctx ml.Context, except map[int]bo
 	return sb.String()
 }
 
+// reservePre / reservePost: a reserve pass (StartForward(reserve=true), the runner's worst-case graph
+// reservation) must leave every piece of cache metadata alone; its mask, observed through Get when layer
+// tensors exist, must expose exactly the stored history of (seq, <= pos, window) over the whole cache.
+type vfMeta struct {
+	cells  []cacheCell
+	ranges map[int]cellRange
+}
+
+func (r *vfRun) reservePre() vfMeta {
+	c := r.cache
+	m := vfMeta{ranges: map[int]cellRange{}}
+	for _, cell := range c.cells {
+		m.cells = append(m.cells, cacheCell{pos: cell.pos, sequences: append([]int(nil), cell.sequences...)})
+	}
+	for k, v := range c.cellRanges {
+		m.ranges[k] = v
+	}
+	return m
+}
+
+func (r *vfRun) reservePost(opi int, op vfOp, ctx ml.Context, err error, before vfMeta) string {
+	c := r.cache
+	if r.out != nil {
+		r.out.Count("reserve_passes")
+	}
+	if err != nil {
+		r.l2("reserve-pass-error", fmt.Sprintf("op %d: %v", opi, err))
+		return ":" + vfErrClass(err)
+	}
+	same := len(before.cells) == len(c.cells) && len(before.ranges) == len(c.cellRanges)
+	for i := 0; same && i < len(c.cells); i++ {
+		same = before.cells[i].pos == c.cells[i].pos && slices.Equal(before.cells[i].sequences, c.cells[i].sequences)
+	}
+	for k, v := range before.ranges {
+		same = same && c.cellRanges[k] == v
+	}
+	if !same {
+		r.l2("reserve-pass-changed-metadata", fmt.Sprintf("op %d (%s)", opi, op.String()))
+	}
+	if c.curLoc != 0 || c.curCellRange.min != 0 || c.curCellRange.max != len(c.cells)-1 {
+		r.l2("reserve-pass-range", fmt.Sprintf("op %d: curLoc %d curCellRange %v over %d cells", opi, c.curLoc, c.curCellRange, len(c.cells)))
+	}
+	if c.keys[r.layers[0]] == nil {
+		if r.out != nil {
+			r.out.Count("reserve_passes_before_first_put")
+		}
+		return ":nolayers"
+	}
+	if r.out != nil {
+		r.out.Count("reserve_passes_observed")
+	}
+	r.reserve = true
+	defer func() { r.reserve = false }()
+	return r.observe(opi, op.toks, ctx, nil, true)
+}
+
 func (r *vfRun) step(opi int, op vfOp) {
 	c := r.cache
 	var x string
@@ -1174,6 +1258,13 @@ func (r *vfRun) step(opi int, op vfOp) {
 	case 'F':
 		x, fwdOK = r.forward(opi, op)
 		x = "F:" + x
+	case 'V':
+		ctx := r.backend.NewContext()
+		before := r.reservePre()
+		err := c.StartForward(ctx, vfBatch(op), true)
+		x = "V" + r.reservePost(opi, op, ctx, err, before)
+		fwdOK = true
+		ctx.Close()
 	case 'C':
 		c.CopyPrefix(op.a, op.b, int32(op.c))
 		r.acctCopy(op)
@@ -1228,6 +1319,15 @@ func (r *vfRun) finish(opi int, op vfOp, x string, fwdOK bool) {
 
 func (r *vfRun) acctCopy(op vfOp) {
 	sh := r.shadow
+	if r.out != nil {
+		r.out.Count("copyprefix_ops")
+		for _, cell := range r.cache.cells {
+			if len(cell.sequences) > 1 {
+				r.out.Count("copyprefix_left_shared_cells")
+				break
+			}
+		}
+	}
 	if !sh.unsound {
 		if op.a == op.b || op.c < 0 {
 			sh.unsound = true
@@ -1265,6 +1365,13 @@ func (r *vfRun) acctRemove(opi int, op vfOp, err error) {
 		// (the shadow's picture of a poisoned sequence is stale until it is cleared: no verdict then)
 		if bad := sh.remove(op.a, b, e); bad != "" && !f.poisoned {
 			r.l2("remove-shifted-shared-entry", fmt.Sprintf("op %d: %s", opi, bad))
+		}
+		if r.out != nil {
+			if e == math.MaxInt32 {
+				r.out.Count("remove_ok_to_end")
+			} else {
+				r.out.Count("remove_ok_with_shift")
+			}
 		}
 		switch {
 		case e == math.MaxInt32 && b == 0:
@@ -1373,6 +1480,19 @@ func (wr *vfWRun) step(opi int, op vfOp) {
 				details[i] = strings.TrimPrefix(v.fwdOK(opi, op, ctx), "ok")
 			}
 		}
+		ctx.Close()
+	case 'V':
+		ctx := wr.views[0].backend.NewContext()
+		var before []vfMeta
+		for _, v := range wr.views {
+			before = append(before, v.reservePre())
+		}
+		err := wr.w.StartForward(ctx, vfBatch(op), true)
+		for i, v := range wr.views {
+			details[i] = v.reservePost(opi, op, ctx, err, before[i])
+		}
+		x = "V"
+		fwdOK = true
 		ctx.Close()
 	case 'C':
 		wr.w.CopyPrefix(op.a, op.b, int32(op.c))
@@ -1545,7 +1665,7 @@ func vfGenConfig(r *zzverif.Rng) vfConfig {
 }
 
 func vfNewRun(cf vfConfig, out *zzverif.Out, line string, silent bool) *vfRun {
-	backend := &vfBackend{cfg: ml.CacheConfig{CachePadding: cf.cachePad, MaskBatchPadding: cf.batchPad, PermutedV: cf.permV}, maxNodes: cf.maxNodes, }
+	backend := &vfBackend{cfg: ml.CacheConfig{CachePadding: cf.cachePad, MaskBatchPadding: cf.batchPad, PermutedV: cf.permV}, maxNodes: cf.maxNodes}
 	if cf.maskF16 {
 		backend.cfg.MaskDType = ml.DTypeF16
 	}
@@ -1595,6 +1715,29 @@ func (g *vfGen) setCausal(n int) {
 		ex = append(ex, n+g.r.Intn(3)) // index beyond the batch
 	}
 	g.do(vfOp{kind: 'E', ex: ex})
+}
+
+// reserve: a reserve pass as the runner's graph reservation issues it (sequence 0, positions 0..n-1, up to
+// the maximum batch) or shaped like the next real batch; it never changes the cache
+func (g *vfGen) reserve() {
+	op := vfOp{kind: 'V'}
+	n := g.r.Range(1, g.cf.maxBatch)
+	if g.r.Chance(1, 2) {
+		for i := 0; i < n; i++ {
+			op.toks = append(op.toks, vfTok{seq: 0, pos: int32(i)})
+		}
+	} else {
+		local := map[int]int32{}
+		s := g.seq()
+		for i := 0; i < n; i++ {
+			if g.r.Chance(1, 3) {
+				s = g.seq()
+			}
+			op.toks = append(op.toks, vfTok{seq: s, pos: g.length[s] + local[s]})
+			local[s]++
+		}
+	}
+	g.do(op)
 }
 
 func (g *vfGen) clear(s int) {
@@ -1770,6 +1913,10 @@ func vfGenHistory(r *zzverif.Rng) (vfConfig, []vfOp, string) {
 		}
 	default:
 		for len(g.ops) < nops && !g.dead {
+			if r.Chance(1, 12) {
+				g.reserve()
+				continue
+			}
 			g.step(wild)
 		}
 	}
@@ -1805,7 +1952,9 @@ func vfGenWHistory(r *zzverif.Rng) (vfConfig, []vfOp) {
 	}}
 	nops := r.Pick3(4, 14, 30)
 	for len(g.ops) < nops && !g.dead {
-		if r.Chance(1, 3) {
+		if r.Chance(1, 12) {
+			g.reserve()
+		} else if r.Chance(1, 3) {
 			g.fwd(false)
 		} else {
 			g.step(false)
@@ -1861,9 +2010,11 @@ func vfExhaustive(out *zzverif.Out, depth int, configs []vfConfig) {
 // ------------------------------------------------------------------ EncoderCache
 
 // An encoder history is  enc <permV> <nops> op*  with
-//   S n base idx reserve   StartForward of n tokens at positions base.., one image at index idx
-//   P id                   Put of data `id` on every layer
-//   R begin end            Remove(0, begin, end)
+//
+//	S n base idx reserve   StartForward of n tokens at positions base.., one image at index idx
+//	P id                   Put of data `id` on every layer
+//	R begin end            Remove(0, begin, end)
+//
 // Observation after every op (L1, oracle command `enc`): EncoderCached, encoderPos, what Get returns per layer.
 type vfEncOp struct {
 	kind       byte
